@@ -7851,7 +7851,14 @@ pub(crate) fn eval_toplevel_exprs_then_stop(
     };
 
     let old_stop_at_expr_id = env.stop_at_expr_id;
-    env.stop_at_expr_id = Some(last_expr.id);
+    // Stopping at a `for` loop means stopping before its body has
+    // run, which is what eval-up-to wants. Here we want to run the
+    // loop (it evaluates to Unit either way), so don't stop at it.
+    env.stop_at_expr_id = if matches!(last_expr.expr_, Expression_::ForIn(_, _, _)) {
+        None
+    } else {
+        Some(last_expr.id)
+    };
 
     let eval_result = eval_toplevel_exprs(&exprs, env, session);
     env.stop_at_expr_id = old_stop_at_expr_id;
